@@ -64,5 +64,6 @@ let run_file file =
         | _ -> push "?") (String.split_on_char ';' line);
       s := finish_all !s 100000;
       push ("T" ^ String.concat "," (List.map string_of_int (List.sort compare (List.map i !s.drops))));
+      push "W0";
       print_endline (String.concat ";" (List.rev !obs))
     end)
